@@ -354,6 +354,30 @@ func runC17(ci interface{}, a *run.Acc) {
 				}
 			}
 			a.Outcome("nofault-ok")
+			// the same operation onto a path that already holds a LONGER file (left by an earlier
+			// run): success must still mean a complete file of exactly the reported size
+			p2 := zx.TempPath("c17pre")
+			if err := os.WriteFile(p2, bytes.Repeat([]byte{0xa5}, size+4096), 0600); err != nil {
+				a.Note("cannot create the pre-existing file: " + err.Error())
+			} else {
+				err := op(p2)
+				if err != nil {
+					fail("nofault", "run onto an existing file failed: "+err.Error())
+					zx.Remove(p2)
+					return
+				}
+				m := checkComplete(p2, env.exp, mode)
+				sz := zx.FileSize(p2)
+				zx.Remove(p2)
+				if m != "" {
+					fail("incomplete-success", "destination path held a longer file before the call: "+m)
+					return
+				}
+				if c.Op == "merge" && int64(gotSize) != sz {
+					fail("size", fmt.Sprintf("destination path held a longer file before the call: Merge reported %d bytes, file has %d", gotSize, sz))
+					return
+				}
+			}
 		}
 		zx.Remove(path)
 		for off := c.Shard; off < size; off += c.Of {
@@ -400,8 +424,8 @@ func init() {
 	run.Register(&run.Def{
 		ID:          "C17",
 		Level:       "fault_enumeration",
-		Rule:        "deviation enumeration on the real write paths: for each of 13 inputs (builds: small, multi-field with doc values, synonyms, empty batch, composite field, varint-boundary values, a stored value larger than the write buffer; merges of 2-3 segments with and without deletions, synonyms, overlapping field lists, without survivors, byte-copy path with varint-boundary values): WriteTo(w) with w failing at EVERY byte offset 0..len-1, once as (short count, error) and once as an all-or-nothing writer returning (0, error) for the write that would cross the offset; Persist(path) and Merge(...,path) under RLIMIT_FSIZE = N for EVERY N in [0, size) (a real torn write at byte N followed by EFBIG; DefaultFileMergerBufferSize = 16 so that flush boundaries are dense); plus the fault-free run of each; in the instrumented flavour (package os replaced by a shim in the write paths) also the failure of the n-th Write call on the file handle for EVERY n, of Sync and of Close; the whole enumeration is repeated in the instrumented flavour under both orders in which the two sections can be laid out (in the plain flavour the order is whatever the Go runtime picks). Oracle: every fault yields a non-nil error and, for the path-based operations, no file at the path; the fault-free run yields identical Persist/WriteTo bytes, a footer with count/chunk mode/version 16/CRC-32 (independent decoder), re-opens to the reference content, and Merge's maps and size are right. Non-trivial = one (input, operation, fault offset) whose fault was actually triggered.",
-		Assumptions: []string{"Sync / Close / n-th-Write-call failures of the file handle are injected through a build-time replacement of package os in the write paths (instrumented flavour)", "the size of an output depends on the order in which sections are laid out (Go map order changes varint lengths of offsets): a run whose output is shorter than the fault offset is accepted iff it is a complete correct output", "output paths do not exist before the call"},
+		Rule:        "deviation enumeration on the real write paths: for each of 13 inputs (builds: small, multi-field with doc values, synonyms, empty batch, composite field, varint-boundary values, a stored value larger than the write buffer; merges of 2-3 segments with and without deletions, synonyms, overlapping field lists, without survivors, byte-copy path with varint-boundary values): WriteTo(w) with w failing at EVERY byte offset 0..len-1, once as (short count, error) and once as an all-or-nothing writer returning (0, error) for the write that would cross the offset; Persist(path) and Merge(...,path) under RLIMIT_FSIZE = N for EVERY N in [0, size) (a real torn write at byte N followed by EFBIG; DefaultFileMergerBufferSize = 16 so that flush boundaries are dense); plus the fault-free run of each; in the instrumented flavour (package os replaced by a shim in the write paths) also the failure of the n-th Write call on the file handle for EVERY n, of Sync and of Close; the whole enumeration is repeated in the instrumented flavour under both orders in which the two sections can be laid out (in the plain flavour the order is whatever the Go runtime picks). Also every fault-free Persist / Merge is repeated onto a path that already holds a longer file. Oracle: every fault yields a non-nil error and, for the path-based operations, no file at the path; the fault-free run yields identical Persist/WriteTo bytes, a footer with count/chunk mode/version 16/CRC-32 (independent decoder), re-opens to the reference content, and Merge's maps and size are right. Non-trivial = one (input, operation, fault offset) whose fault was actually triggered.",
+		Assumptions: []string{"Sync / Close / n-th-Write-call failures of the file handle are injected through a build-time replacement of package os in the write paths (instrumented flavour)", "the size of an output depends on the order in which sections are laid out (Go map order changes varint lengths of offsets): a run whose output is shorter than the fault offset is accepted iff it is a complete correct output", "fault runs use fresh paths; the fault-free run is also repeated onto a path that holds a longer file"},
 		Bounds:      map[string]string{"quick": "14 inputs, every byte offset of every output (2 legal WriteTo failure modes; Persist for the 7 build inputs; Merge for the 7 merge inputs), random section order + both section orders", "thorough": "the 14 inputs plus 17 more builds (every text / synonym menu item) and 239 more merges (every ordered pair of text menu items without and with deletions, every ordered pair of synonym menu items): every byte offset of every output, handle faults at every Write call"},
 		Flavours:    func(string) []string { return []string{"plain", "inst"} },
 		New:         func() interface{} { return &FaultCase{} },
